@@ -620,6 +620,21 @@ pub fn run(rep: &mut Rep, args: &[String]) {
             Call::SetLeaf(1, enc_fr(&Fr::from(0u64))),
             Call::Atomic(0, l1(&mut rng, 0), enc_vec_u8(&[0, 2])),
             Call::GetRoot,
+            // sequential batches after deletions at the end of the written range (they start at the leaf COUNT, which
+            // deletions do not lower), after a deletion in the middle, after a write above the count
+            Call::InitTree(l1(&mut rng, 4)),
+            Call::DeleteLeaf(3),
+            Call::SeqAtomic(l1(&mut rng, 2), enc_vec_u8(&[])),
+            Call::LeavesSet,
+            Call::DeleteLeaf(5),
+            Call::DeleteLeaf(4),
+            Call::SeqAtomic(l1(&mut rng, 1), enc_vec_u8(&[])),
+            Call::LeavesSet,
+            Call::DeleteLeaf(1),
+            Call::SeqAtomic(l1(&mut rng, 1), enc_vec_u8(&[])),
+            Call::SetLeaf(9, enc_fr(&Fr::from(0u64))),
+            Call::SeqAtomic(l1(&mut rng, 2), enc_vec_u8(&[])),
+            Call::GetRoot,
             Call::SetTree(*depth),
             Call::SetTree(*depth),
             Call::LeavesSet,
